@@ -68,10 +68,11 @@ HiOffsets(tmpl) == { tmpl.cells[j].o : j \in { jj \in DOMAIN tmpl.cells : tmpl.c
 Stamp(pose, tmpl) == { Add([i \in 1..3 |-> pose.pos[i] - 1], PoseShift(pose.R, o)) : o \in HiOffsets(tmpl) }
 
 \* poses are stamped in list order: the last pose covering a voxel wins
-Coloured(cdims, tmpl, poses) == { x \in Box(cdims) : \E i \in DOMAIN poses : x \in Stamp(poses[i], tmpl) }
-LastCover(x, tmpl, poses) == CHOOSE i \in DOMAIN poses : /\ x \in Stamp(poses[i], tmpl)
-                                                         /\ \A j \in DOMAIN poses : j > i => x \notin Stamp(poses[j], tmpl)
-Placed(cdims, tmpl, poses) == { <<x, poses[LastCover(x, tmpl, poses)].colour>> : x \in Coloured(cdims, tmpl, poses) }
+Stamps(tmpl, poses) == [i \in DOMAIN poses |-> Stamp(poses[i], tmpl)]
+Placed(cdims, tmpl, poses) ==
+    LET st == Stamps(tmpl, poses)
+        Last(x) == CHOOSE i \in DOMAIN poses : x \in st[i] /\ \A j \in DOMAIN poses : j > i => x \notin st[j]
+    IN  { <<x, poses[Last(x)].colour>> : x \in { y \in UNION { st[i] : i \in DOMAIN poses } : InBox(y, cdims) } }
 
 \* the complete (1-based) position of each pose after shift_positions(o), for every template offset o
 Shifted(tmpl, poses) == [i \in DOMAIN poses |-> [j \in DOMAIN tmpl.cells |-> Add(poses[i].pos, PoseShift(poses[i].R, tmpl.cells[j].o))]]
@@ -144,10 +145,12 @@ TypeOK == /\ d \in {0, 1}
 \* a rotation permutes the decided voxels: no two sources share a destination, sources and destinations are interior,
 \* offsets from the centre are carried by R (active), and rotating back with the inverse returns every voxel
 C14_RotatePermutesInterior ==
-    Done("rotate") => /\ \A p, q \in out.pairs : p[1] = q[1] => p[2] = q[2]
+    Done("rotate") => LET back == RotPairs(inp.dims, Inv(inp.R)) IN
+                      /\ Cardinality({ p[1] : p \in out.pairs }) = Cardinality(out.pairs)
+                      /\ Cardinality({ p[2] : p \in out.pairs }) = Cardinality(out.pairs)
                       /\ \A p \in out.pairs : /\ Interior(p[1], inp.dims) /\ Interior(p[2], inp.dims)
                                               /\ Sub(p[1], Centre(inp.dims)) = Apply(inp.R, Sub(p[2], Centre(inp.dims)))
-                                              /\ <<p[2], p[1]>> \in RotPairs(inp.dims, Inv(inp.R))
+                                              /\ <<p[2], p[1]>> \in back
                       /\ inp.R = Id => out.pairs = { <<x, x>> : x \in InteriorBox(inp.dims) }
 
 \* every stamped voxel is the 0-based complete position the particle would have after shift_positions(offset)
@@ -157,17 +160,19 @@ C14_SameAsPose ==
                              [a \in 1..3 |-> out.shifted[i][j][a] - 1] \in Stamp(inp.poses[i], inp.tmpl)
 
 C14_PlaceStamps ==
-    Done("place") => /\ \A p \in out.placed : /\ InBox(p[1], inp.cdims)
-                                              /\ \E i \in DOMAIN inp.poses : p[2] = inp.poses[i].colour /\ p[1] \in Stamp(inp.poses[i], inp.tmpl)
-                     /\ \A p, q \in out.placed : p[1] = q[1] => p[2] = q[2]
-                     \* a voxel covered by exactly one pose carries that pose's colour; uncovered voxels stay untouched
-                     /\ \A x \in Box(inp.cdims) :
-                           LET cov == { i \in DOMAIN inp.poses : x \in Stamp(inp.poses[i], inp.tmpl) } IN
-                           /\ cov = {} => \A p \in out.placed : p[1] # x
-                           /\ Cardinality(cov) = 1 => <<x, inp.poses[CHOOSE i \in cov : TRUE].colour>> \in out.placed
+    Done("place") => LET st == Stamps(inp.tmpl, inp.poses)
+                         cov(x) == { i \in DOMAIN inp.poses : x \in st[i] }
+                         touched == { p[1] : p \in out.placed }
+                     IN
+                     /\ \A p \in out.placed : /\ InBox(p[1], inp.cdims)
+                                              /\ \E i \in cov(p[1]) : p[2] = inp.poses[i].colour
+                                              \* a voxel covered by exactly one pose carries that pose's colour
+                                              /\ Cardinality(cov(p[1])) = 1 => p[2] = inp.poses[CHOOSE i \in cov(p[1]) : TRUE].colour
+                     /\ Cardinality(touched) = Cardinality(out.placed)
+                     \* exactly the covered container voxels are touched; everything else stays as it was
+                     /\ touched = { x \in UNION { st[i] : i \in DOMAIN inp.poses } : InBox(x, inp.cdims) }
                      \* below-threshold template voxels never stamp
-                     /\ Cardinality(HiOffsets(inp.tmpl)) < Len(inp.tmpl.cells) =>
-                           \A i \in DOMAIN inp.poses : Cardinality(Stamp(inp.poses[i], inp.tmpl)) < Len(inp.tmpl.cells)
+                     /\ \A i \in DOMAIN inp.poses : Cardinality(st[i]) = Cardinality(HiOffsets(inp.tmpl))
 
 \* the per-axis form agrees with the cell-wise meaning; the in-volume part is the intersection of the two boxes
 C14_WindowExact ==
